@@ -37,19 +37,26 @@ def sh(cmd, **kw):
 
 def main():
     name = sys.argv[1]
-    src = Path(sys.argv[2] if len(sys.argv) > 2 else f"/tmp/refactor-out/{name}")
+    only = None
+    for a in sys.argv[2:]:
+        if a.startswith("--only="):
+            only = a.split("=", 1)[1].split(",")
+    rest = [a for a in sys.argv[2:] if not a.startswith("--only=")]
+    src = Path(rest[0] if rest else (f"/tmp/refactor-out/{name}" if Path(f"/tmp/refactor-out/{name}").exists() else str(VERIF / "seeded" / "refactors" / name)))
     dest = VERIF / "seeded" / "refactors" / name
     dest.mkdir(parents=True, exist_ok=True)
-    for f in src.iterdir():
+    for f in ([] if src.resolve() == dest.resolve() else src.iterdir()):
         if f.is_file() and f.stat().st_size < 300000:
             shutil.copy(f, dest / f.name)
     head = sh("git -C /repo rev-parse HEAD").stdout.strip()
     if not (WT / ".git").exists():
         sh(f"git -C /repo worktree add --detach {WT} HEAD")
-    sh(f"git -C {WT} checkout -q -- . && git -C {WT} checkout -q --detach {head}")
+    sh(f"git -C {WT} reset -q --hard && git -C {WT} checkout -q --detach {head}")
     ap = sh(f"git -C {WT} apply {dest}/patch.diff")
     if ap.returncode != 0:
         ap = sh(f"git -C {WT} apply --3way {dest}/patch.diff")
+        if ap.returncode != 0:
+            sh(f"git -C {WT} reset -q --hard")
     rec = {"repo_head": head, "evaluated_at": time.strftime("%Y-%m-%d %H:%M:%S"), "patch_applies": ap.returncode == 0, "checks": {}}
     if ap.returncode == 0:
         touched = re.findall(r"^\+\+\+ b/(\S+)", (dest / "patch.diff").read_text(), flags=re.M)
@@ -64,6 +71,8 @@ def main():
         for t in touched:
             props += EXTRA.get(t, [])
         props = sorted(set(props))
+        if only:
+            props = [p for p in props if p in only]
         rec["touched"] = touched
         for pid in props:
             evf = VERIF / "evidence" / f"{pid}.json"
@@ -82,9 +91,15 @@ def main():
             if backup is not None:
                 evf.write_bytes(backup)
             subprocess.run([str(VERIF / "check.py"), pid, "--extract"], capture_output=True, text=True, cwd=VERIF)
-    sh(f"git -C {WT} checkout -q -- .")
+    sh(f"git -C {WT} reset -q --hard")
     meta_f = dest / "meta.json"
     meta = json.loads(meta_f.read_text()) if meta_f.exists() else {}
+    if only and "coordinator_evaluation" in meta:
+        old = meta["coordinator_evaluation"]
+        old.setdefault("rechecks", []).append(rec)
+        for k, v in rec["checks"].items():
+            old["checks"][k] = v
+        rec = old
     meta["coordinator_evaluation"] = rec
     meta_f.write_text(json.dumps(meta, indent=1) + "\n")
     print(name, {k: (v["exit"], [re.sub(r".*replay=\S+/", "", x) for x in v["violations"]]) for k, v in rec["checks"].items()})
